@@ -1290,7 +1290,9 @@ theorem pre_clearWrittenEvents (a : Acc) : a.2 <+: (clearWrittenEvents a).2 := b
   unfold clearWrittenEvents
   simp only
   refine (pre_emitCb a .beginConfirm).trans (List.IsPrefix.trans ?_ (pre_emitCb _ _))
-  exact pre_foldl_emitCb _ _
+  have h := pre_foldl_emitCb (emitCb a .beginConfirm).1.db.clearWritten.2.1
+    (({ (emitCb a .beginConfirm).1 with db := (emitCb a .beginConfirm).1.db.clearWritten.1 } : OState), (emitCb a .beginConfirm).2)
+  exact h
 
 theorem pre_startUnsolSeries (a a' : Acc) (r : Resp) (isNull : Bool) (h : startUnsolSeries a r isNull = some a') :
     a.2 <+: a'.2 := by
